@@ -127,7 +127,11 @@ func (h *h3) startNode(i int) error {
 	var err error
 	crashed := h.do(n.node, "start:"+n.id, func() {
 		n.srv = New(h.config(n, peers))
-		n.srv.logger = &spyLogger{Logger: n.srv.logger, hits: h.logHits}
+		spy := &spyLogger{Logger: n.srv.logger, hits: h.logHits}
+		if h.verbose {
+			spy.sim = h.s
+		}
+		n.srv.logger = spy
 		err = n.srv.startSim()
 	})
 	if crashed {
@@ -380,6 +384,14 @@ func lastIndexByte(s string, b byte) int {
 type spyLogger struct {
 	lblog.Logger
 	hits map[string]int
+	sim  *simrt.Sim // set in verbose runs
+}
+
+func (l *spyLogger) Debugf(format string, v ...interface{}) {
+	if l.sim != nil && strings.HasPrefix(format, "Truncating log") {
+		l.sim.Logf("server log: "+format, v...)
+	}
+	l.Logger.Debugf(format, v...)
 }
 
 func (l *spyLogger) Errorf(format string, v ...interface{}) {
